@@ -286,10 +286,8 @@ func scribble(c *CfgCore) {
 			c.HeldP.L[i] = poisonS
 		}
 	}
-	for st := c.Chain; len(st) > 0; st = st[0].Then {
-		if st[0].Labels != nil {
-			st[0].Labels[poisonS] = poisonI
-		}
+	if m := deepBottom(c.Chain); m != nil {
+		m[poisonS] = poisonI
 	}
 	for _, m := range c.MA {
 		if m != nil {
